@@ -239,6 +239,46 @@ partial def hasMisTypedConst (p : PExpr) : Bool :=
     | .const _ v => !v.typeOfShapeOk
     | _ => false
 
+/-! ### the tie of the extracted result kinds (`Octo.Gen.FuncTable`) to what the real function bodies return -/
+
+open Octo.Gen.FuncTable in
+/-- can a `return` of this kind have produced `v` on the argument values `args`? -/
+def producesB : Kind → List Value → Value → Bool
+  | .ctor tid, _, v => v.rank == tid
+  | .null, _, v => v.rank == 0
+  | .arg i, args, v => match args[i]? with
+    | some a => encodeValue a == encodeValue v
+    | none => false
+  | .elem i, args, v => match args[i]? with
+    | some (.list xs) => xs.any fun x => encodeValue x == encodeValue v
+    | _ => false
+  | .err, _, _ => false
+
+/-- walks the typed tree along the preorder list of node values; returns (own value, first complaint, remaining values) -/
+partial def kindWalk : PExpr → List (Option Value) → Option Value × Option String × List (Option Value)
+  | p, [] => (none, some s!"too few values for {encodeP p}", [])
+  | p, own :: rest =>
+    let kids : List PExpr := match p with
+      | .call _ _ _ _ as | .and _ as | .or _ as | .coalesce _ as | .tuple _ as => as
+      | .assert _ _ e | .cast _ _ e | .field _ _ e => [e]
+      | _ => []
+    let (kidVals, complaint, rest') := kids.foldl (fun (acc : List (Option Value) × Option String × List (Option Value)) k =>
+      let (v, c, r) := kindWalk k acc.2.2
+      (acc.1 ++ [v], (acc.2.1 <|> c), r)) ([], none, rest)
+    let mine : Option String := match p, own with
+      | .call _ name idx _ _, some v =>
+        (match kidVals.mapM id with
+         | none => none                                  -- an argument failed: the body was not reached
+         | some args =>
+           match Octo.Gen.FuncTable.table.find? (fun e => e.name == name && e.idx == idx) with
+           | none => some s!"no table entry for {tokOfName name}/{idx}"
+           | some e =>
+             if e.strict && v.rank == 0 && args.any (fun a => a.rank == 0) then none   -- the strict NULL check, not the body
+             else if e.kinds.any (fun k => producesB k args v) then none
+             else some s!"function {tokOfName name}/{idx} returned {encodeValue v}, which none of the result kinds extracted from its body accounts for")
+      | _, _ => none
+    (own, (complaint <|> mine), rest')
+
 def judgeEv (out : List String) : String :=
   match out with
   | ["tc-reject"] => "ok"
@@ -263,7 +303,11 @@ def judgeEv (out : List String) : String :=
                 if hasMisTypedConst p then
                   "known const-typeof-shape-mismatch " ++ (msg.drop 4).toString
                 else msg
-              | none => go (i + 1) rs
+              | none =>
+                -- the translator's result kinds must account for what every function body returned
+                match (kindWalk p vals).2.1 with
+                | some c => s!"bad row {i}: result-kind extraction broken: {c}"
+                | none => go (i + 1) rs
         go 0 (splitOn ";" rows)
       | _ => "bad unparsable-typed-tree"
     | _ => "bad unparsable-impl-output"
